@@ -12,6 +12,13 @@ def _c(text, ref):
 
 
 CLAIMS = {
+    "C15": dict(_c("Bounded symbolic model checking of the real coerce_input_value / validate_input_value / value_to_literal / "
+              "coerce_input_literal / validate_input_literal / ValuesOfCorrectTypeRule / get_variable_values over 14 input types, 14 "
+              "value and literal shapes with symbolic leaves (unbounded ints, floats, short strings, bools, null, Undefined, "
+              "variables present/absent/null): 'coercion fails iff validation reports', 'results conform to the type', 'value -> "
+              "literal -> coerce is the identity', 'the literal rule accepts exactly the coercible constants', 'a provided or "
+              "defaulted variable is never silently dropped'. The numeric leaves are decided for all doubles / 72-bit ints by E2.",
+              "DESIGN.md section 7, C15"), engine="crosshair-z3 + ast2smt-z3"),
     "C16": dict(_c("Two engines. E2: the numeric kernels of graphql.type.scalars (serialize/coerce Int and Float, int_value_to_literal, "
               "serialize_id, serialize_boolean) are translated from the current source to QF_BVFP and the negated claims (32-bit "
               "range, finiteness, exact equality with the input, no silent precision loss, completeness, input round trip) are "
